@@ -47,7 +47,7 @@ class C07(Prop):
         code, v = case['code'], case['version']
         g = grammar(v)
         from ..common import case_int, disturb
-        disturb(g, case_int(code, v))
+        disturb(g, case_int(code, v), code)
         try:
             m = g.parse(code)
         except RecursionError:
